@@ -55,9 +55,22 @@ def analyse(prop, tier, repo_root, seed=0, quiet=False):
     return rep
 
 
+def _watchdog(seconds):
+    import signal
+
+    def on_alarm(signum, frame):
+        raise AnalysisError('time budget of %d s exceeded (symbolic expression growth?)' % seconds)
+    try:
+        signal.signal(signal.SIGALRM, on_alarm)
+        signal.alarm(seconds)
+    except (ValueError, AttributeError):
+        pass
+
+
 def run_check(prop, tier, repo_root, write_evidence=True, selfcheck=True):
     seed = int(os.environ.get('VERIF_SEED', '0') or 0)
     prop = prop.upper()
+    _watchdog(int(os.environ.get('NDVERIF_BUDGET', '600' if tier == 'quick' else '3000')))
     try:
         rep = analyse(prop, tier, repo_root, seed)
         if selfcheck:
